@@ -83,7 +83,7 @@ func c18Decl(layout int, subOpt bool, defaultOpts bool, pano bool, ignoreUnknown
 
 var c18Units = [][]string{
 	{"-v"}, {"--verbose"}, {"-f"}, {"-f", "alpha"}, {"--file=alpha"}, {"-fbeta"}, {"-vf"}, {"-o"}, {"--opt=x"}, {"-n", "5"}, {"--num"},
-	{"add"}, {"a2"}, {"rm"}, {"deep"}, {"adx"}, {"zz"}, {"alpha"}, {"7"}, {"--"}, {"--force"}, {"--from", "gamma"}, {"-x"}, {"-ü", "gamma"}, {"-ü"}, {"-vü"}, {"--color", "on"}, {"-c"}, {"--pw"}, {"--ci"},
+	{"add"}, {"a2"}, {"rm"}, {"deep"}, {"adx"}, {"zz"}, {"alpha"}, {"7"}, {"--"}, {"--force"}, {"--from", "gamma"}, {"-x"}, {"-ü", "gamma"}, {"-ü"}, {"-vü"}, {"--color", "on"}, {"-c"}, {"--pw"}, {"--ci"}, {"-qv"},
 }
 
 var c18Last = []string{"", "-", "--", "--v", "--ve", "--vee", "--f", "--x", "--s", "-v", "-f", "-fal", "-f=al", "--file=al", "--file=", "--from=", "--from=a", "--num=", "al", "a", "ad", "r", "zz", "g", "d", "h", "--de", "-o", "--opt=", "be", "-ü", "-üal", "-ü=g", "--u", "--pw=al", "--c", "DE", "--ci=DEL"}
@@ -410,7 +410,7 @@ func init() {
 		ShardDepth: 7,
 		Body:       body,
 		Rule: "declaration with Completer-typed options (short+long, long-only, a multi-byte short name, two different word lists, a completer that matches case-insensitively and answers in lower case), an optional-argument option, hidden long and hidden short-only options, hidden command, short-only options in lower and upper case, commands sharing a prefix (add, adx), alias, sub-subcommand; " +
-			"positionals of add in 5 layouts (none, [Words], [Words,int], [int,Words], [Words, ...Words2]) x subcommands-optional on the parser yes/no x HelpFlag yes/no (+ IgnoreUnknown, + PassAfterNonOption on the two layouts whose positionals complete differently: after the first plain word only positional values are asserted) x {struct tags, API build where a group of the parser is added after the commands and after a first completion and parse on the half-built parser}; every valid prefix (the CLM in prefix mode accepts it) of <= 3 units (quick: <= 2 on the HelpFlag variants, with optional subcommands and on two of the five positional layouts; thorough: <= 4 on the [Words,int] layout without HelpFlag) over 30 units " +
+			"positionals of add in 5 layouts (none, [Words], [Words,int], [int,Words], [Words, ...Words2]) x subcommands-optional on the parser yes/no x HelpFlag yes/no (+ IgnoreUnknown, + PassAfterNonOption on the two layouts whose positionals complete differently: after the first plain word only positional values are asserted) x {struct tags, API build where a group of the parser is added after the commands and after a first completion and parse on the half-built parser}; every valid prefix (the CLM in prefix mode accepts it) of <= 3 units (quick: <= 2 on the HelpFlag variants, with optional subcommands and on two of the five positional layouts; thorough: <= 4 on the [Words,int] layout without HelpFlag) over 31 units " +
 			"(flags, separate / attached / '=' arguments, pending option, cluster ending in a pending option, optional-argument option, command words and alias, plain words, numbers, terminator) x 38 partial last words; " +
 			"oracle from the CLM context after the prefix: (a) '-' / '--p' => exactly the non-hidden options in scope with that prefix, (b) value position of a Completer-typed option or positional => exactly its words re-attached to the spelling, " +
 			"(c) otherwise the non-hidden subcommands with that prefix, (d) sorted, (e) every offered option/command re-parsed by the real parser at that position is not unknown, (f) the real parser's Active chain on the typed words equals the model's",
